@@ -30,6 +30,16 @@ PROPS = {
         "technique": "bounded exhaustive exploration of operation sequences with an invariant monitor on every transition",
         "assumptions": ["a case cut by the per-case CPU/memory budget is counted as cut (C03's subject), not judged"],
     },
+    "C10": {
+        "bin": "px_unicode", "budget_ms": 20000, "wall_cap": {"quick": 100, "thorough": 2400},
+        "rule": "complete value domains: fill-rectangle character parameter (quick: all values < 2^22 plus every 2^k, 2^k+-1, surrogate / 0x10FFFF boundaries and the saturation values; thorough: all 2^31 reachable values), "
+                "all 65536 16-bit clipboard character values, PSF2/PSF1/raw glyph tables up to 2^17 glyphs, all 256^2 hex macro byte pairs (macro invoked), IcyDraw long-form cells and strings [with C07]; "
+                "non-trivial = batch touches the surrogate range / hex digits / a glyph table",
+        "level_text": "every value of each input-derived character conversion is pushed through the real code and the stored cells, glyph keys and strings are inspected",
+        "level_note": "an invalid char is observed as its raw bits (debug assertions off); reading one is already UB, so a finding means 'materialised', silence means 'not materialised on any explored value'",
+        "technique": "exhaustive enumeration of finite value domains on the implementation with a validity invariant on every stored cell / key / string",
+        "assumptions": ["characters are inspected through `ch as u32` in an optimised build without debug assertions"],
+    },
     "C14": {
         "bin": "px_sixel", "budget_ms": 20000, "case_wall_ms": 8000, "judge_budget": True, "wall_cap": {"quick": 120, "thorough": 2400},
         "rule": "payloads: every string of <=5 (thorough 6) tokens over a 16-token sixel alphabet through Sixel::parse_from; schedules: every interleaving of in-order arrivals, "
@@ -65,6 +75,8 @@ PROPS = {
 HOOK_COMMITS = ["81babd1"]
 
 ENGINES = [
+    {"name": "px_unicode", "path": "harness/src/bin/px_unicode.rs", "serves_properties": ["C10"],
+     "kind_free_text": "value-domain enumerator for character conversions (fill rectangle, clipboard, fonts, hex macros, IcyDraw cells)"},
     {"name": "px_cost", "path": "harness/src/bin/px_cost.rs", "serves_properties": ["C03"],
      "kind_free_text": "control-function table enumerator with CPU / peak-heap / allocation-scaling oracle"},
     {"name": "px_sixel", "path": "harness/src/bin/px_sixel.rs", "serves_properties": ["C14"],
